@@ -387,6 +387,20 @@ pub(crate) fn thread_guard(role: Role) -> ThreadGuard {
     ThreadGuard(role)
 }
 
+/// Emits `WaitExit` when dropped, on every return path of `WaitSlot::wait_while`.
+pub(crate) struct WaitGuard(SlotId);
+
+pub(crate) fn wait_guard(slot: SlotId) -> WaitGuard {
+    event(Event::WaitEnter { slot });
+    WaitGuard(slot)
+}
+
+impl Drop for WaitGuard {
+    fn drop(&mut self) {
+        event(Event::WaitExit { slot: self.0 });
+    }
+}
+
 impl Drop for ThreadGuard {
     fn drop(&mut self) {
         event(Event::ThreadEnd(self.0));
